@@ -48,7 +48,7 @@ theorem pyEq_trans (a b c : Cell) : Cell.pyEq a b = true → Cell.pyEq b c = tru
 theorem pyEq_refl (a : Cell) (h : a ≠ .nan) : Cell.pyEq a a = true := (pyEq_iff a a).2 ⟨rfl, h⟩
 
 /-- away from NaN the scalar branch of `eq` is Python `==` -/
-theorem cellEq_eq_pyEq (a b : Cell) (ha : a ≠ .nan) (hb : b ≠ .nan) : cellEq a b = Cell.pyEq a b := by
+theorem cellEq_eq_pyEq (a b : Cell) (ha : a ≠ .nan) : cellEq a b = Cell.pyEq a b := by
   rw [Bool.eq_iff_iff, cellEq_iff, pyEq_iff]; simp [ha]
 
 /-! ### all2 -/
@@ -454,7 +454,7 @@ theorem eq_pyEq_seq_aux : ∀ (n : Nat) (a b : EVal), sizeOf a ≤ n →
       try (simp [eq, EVal.norm, eqN, pyEqV]; done)
     case cell.cell x y =>
       simp only [eq, EVal.norm, eqN, pyEqV]
-      exact cellEq_eq_pyEq x y (by simpa using ha) (by simpa using hb)
+      exact cellEq_eq_pyEq x y (by simpa using ha)
     case list.list xs ys =>
       simp at h
       simp only [eq, EVal.norm, eqN, eqArr_normList, pyEqV]; exact hlist xs ys (by omega) ha hb
